@@ -432,6 +432,17 @@ def table():
     t['num_extrap_func'] = lambda: Call('Numerics.make_extrap_func', lambda p, ns, pts: N.make_extrap_func(model_A)(p, ns, pts), [[1.5, 0.7], [8], [10, 14, 20]])
     t['num_projection_cache'] = lambda: Call('Numerics._cached_projection', lambda: [N._cached_projection(4, 9, h) for h in range(10)], [])
     t['num_multinomln_part'] = lambda: Call('Numerics.part', lambda Nl: (N.multinomln(Nl), N.cached_part(5, 4), list(N.part(5, 4)), N.cached_part_precalc(5, 4)), [[2, 1, 1]])
+    # ---- low-pass helpers whose result is consumed positionally
+    def cov_dd(seed):
+        rs = numpy.random.RandomState(seed)
+        return {'s%d' % i: dict(coverage={'YRI': tuple(int(x) for x in rs.poisson(4, 5)), 'CEU': tuple(int(x) for x in rs.poisson(9, 3)), 'CHB': tuple(int(x) for x in rs.poisson(2, 4))})
+                for i in range(6)}
+
+    def cov_dist(dd, ids):
+        from dadi.LowPass import LowPass as LP
+        r = LP.compute_cov_dist(dd, ids)
+        return [list(r.keys())] + [numpy.asarray(v) for v in r.values()]       # the ORDER of the entries is part of the result
+    t['lowpass_cov_dist'] = lambda: Call('LowPass.compute_cov_dist', cov_dist, [cov_dd(120), ['YRI', 'CEU', 'CHB']])
     # ---- Misc
     t['perturb_params'] = lambda: Call('perturb_params', Misc.perturb_params, [[1.0, 0.5, 3.0]], dict(fold=1, lower_bound=[1e-2, None, 1e-2], upper_bound=[10.0, 10.0, None]), seed=7)
     t['perturb_params_arr'] = lambda: Call('perturb_params', Misc.perturb_params, [numpy.array([1.0, 0.5, 3.0])], dict(fold=2, lower_bound=[1e-2, 0.4, 1e-2], upper_bound=[10.0, 10.0, 10.0]),
